@@ -32,7 +32,12 @@ def check(ctx):
   ctx.rule('C02.R5', 'exclusive checkout: the pool cache is changed only by _Dequeue (popleft before lending) and _Release (append), and _Release is called only by owners of the connection')
   ctx.decline('value equality end-to-end (thrift library) and peers that duplicate replies for a tag are not decided')
   f = prog.func('scales/core.py', 'ClientProxyBuilder._BuildServiceProxy')
+  from . import c01
+  ctx.rule('C01.R2', 'shared with C01: every call gets its own sink stack and AsyncResult (a stack that outlives its call is still referenced by the transport: a late reply would land in whoever got it next)')
+  c01.r2(ctx)
   c20.r2(ctx, f)
+  c20.r1(ctx, f)
+  c20.late_binding(ctx, f)
   c14.r3(ctx)
   from .. import wire
   ser = prog.func('scales/thrift/serializer.py', 'MessageSerializer.SerializeThriftCall')
